@@ -23,7 +23,7 @@
 
 use common::*;
 use rusl::io_uring::{io_uring_enter, setup_io_uring};
-use rusl::platform::{IoUring, IoUringEnterFlags, IoUringParamFlags as P, IoUringSQEFlags, IoUringSubmissionQueueEntry as Sqe, PollAddMultiFlags, PollEvents, TimeSpec};
+use rusl::platform::{IoUring, VerifRingParts, IoUringEnterFlags, IoUringParamFlags as P, IoUringSQEFlags, IoUringSubmissionQueueEntry as Sqe, PollAddMultiFlags, PollEvents, TimeSpec};
 use serde_json::json;
 use std::sync::atomic::{AtomicBool, Ordering};
 use std::sync::Arc;
@@ -33,6 +33,8 @@ use std::time::{Duration, Instant};
 mod ops_raw;
 #[path = "ops_ringflags.rs"]
 mod ops_ringflags;
+#[path = "ops_sqebytes.rs"]
+mod ops_sqebytes;
 
 /// the few items of the big binary's modules that ops_ringflags.rs uses
 mod ops {
@@ -79,7 +81,7 @@ mod ops_sym {
     }
 }
 
-const SHAPES: [&str; 3] = ["loop-if-let", "while-is-none-with-spin-hint", "counted-match"];
+const SHAPES: [&str; 4] = ["loop-if-let", "while-is-none-with-spin-hint", "counted-match", "constant-flags-handle-in-the-polling-function"];
 const EXIT_SEEN: i32 = 0;
 const EXIT_NEVER_OBSERVED: i32 = 42;
 const EXIT_NOT_POSTED: i32 = 43;
@@ -121,6 +123,22 @@ fn reap_spinning_counted(ring: &mut IoUring) -> (u64, i32) {
     }
 }
 
+/// The ring's flags a COMPILE-TIME CONSTANT in the function that holds the loop — what whole-program inlining
+/// makes of a program that sets its ring up with literal flags and polls it in the same function: the
+/// SQPOLL branch inside `get_next_cqe` folds away and its tail load stands unconditionally in the loop header.
+/// Built here without depending on the inliner: a handle over the REAL ring's memory made with
+/// `verif_from_raw_parts` (constant flags), polled in this function.  F: 0 = no flags, 1 = SQE128|CQE32.
+#[inline(never)]
+fn reap_spinning_const_flags<const F: u32>(mut parts: VerifRingParts) -> (u64, i32) {
+    parts.flags = if F == 0 { P::empty() } else { P::IORING_SETUP_SQE128 | P::IORING_SETUP_CQE32 };
+    let mut h = unsafe { IoUring::verif_from_raw_parts(parts) };
+    loop {
+        if let Some(c) = h.get_next_cqe() {
+            return (c.0.user_data, c.0.res);
+        }
+    }
+}
+
 /// The submitting counterpart: spin until the queue has a free slot.
 #[inline(never)]
 fn slot_spinning(ring: &mut IoUring) -> *mut Sqe {
@@ -138,6 +156,8 @@ fn child(kind: &str, entries: u32, flags: u32, shape: u32) -> ! {
     let Some(params) = ops_raw::raw_params(entries, flags, idle) else { unsafe { libc::_exit(EXIT_SETUP_REFUSED) } };
     let Ok(mut ring) = setup_io_uring(entries, ops::flags_from_bits(flags), 0, idle) else { unsafe { libc::_exit(EXIT_SETUP_REFUSED) } };
     let Some(view) = ops_raw::RingView::find(params) else { unsafe { libc::_exit(EXIT_SETUP_REFUSED) } };
+    let (view_base, view_params) = (view.base(), view.p);
+    let sqes_addr = ops_raw::uring_maps().iter().find(|m| m.2 == 0x1000_0000).map(|m| m.0).unwrap_or(0);
     let view = View(view);
     let done = Arc::new(AtomicBool::new(false));
     let ring_fd = ring.fd.value();
@@ -235,6 +255,35 @@ fn child(kind: &str, entries: u32, flags: u32, shape: u32) -> ! {
                     (ud, if kind == "timeout" { -libc::ETIME } else { 1 })
                 }
                 2 => reap_spinning_counted(&mut ring),
+                3 => {
+                    let (lh, lt) = ring.verif_local_sq();
+                    let base = view_base;
+                    let pp = &view_params;
+                    let at = |off: u32| unsafe { base.add(off as usize) as *mut u32 };
+                    let parts = VerifRingParts {
+                        fd: ring.fd,
+                        flags: P::empty(),
+                        sq_khead: at(pp.sq_off.head),
+                        sq_ktail: at(pp.sq_off.tail),
+                        sq_kflags: at(pp.sq_off.flags),
+                        sq_kdropped: at(pp.sq_off.dropped),
+                        sq_array: at(pp.sq_off.array),
+                        sq_entries: sqes_addr as *mut Sqe,
+                        sq_ring_entries: pp.sq_entries,
+                        sq_local_head: lh,
+                        sq_local_tail: lt,
+                        cq_khead: at(pp.cq_off.head),
+                        cq_ktail: at(pp.cq_off.tail),
+                        cq_koverflow: at(pp.cq_off.overflow),
+                        cq_entries: unsafe { base.add(pp.cq_off.cqes as usize) }.cast(),
+                        cq_ring_entries: pp.cq_entries,
+                    };
+                    if flags == 0 {
+                        reap_spinning_const_flags::<0>(parts)
+                    } else {
+                        reap_spinning_const_flags::<1>(parts)
+                    }
+                }
                 _ => reap_spinning(&mut ring),
             },
             1,
@@ -256,7 +305,7 @@ fn poll_phase(args: &Args) -> Report {
     for rep in 0..reps {
         for e in [2u32, 8] {
             for f in [0, both] {
-                for shape in 0..3 {
+                for shape in 0..4 {
                     cases.push(("timeout", e, f, rep, shape));
                     cases.push(("pipe", e, f, rep, shape));
                 }
@@ -334,7 +383,9 @@ fn main() {
     if let Some(p) = &args.replay {
         let v = read_replay(p);
         let mut r = Report::new();
-        if v["phase"].as_str() == Some("ringflags") {
+        if v["phase"].as_str() == Some("sqebytes") {
+            ops_sqebytes::replay(&v, &mut r);
+        } else if v["phase"].as_str() == Some("ringflags") {
             ops_ringflags::replay(&v, &mut r);
         } else {
             let kind: &'static str = match v["kind"].as_str() {
@@ -363,7 +414,8 @@ fn main() {
     let r = match phase.as_str() {
         "poll" => poll_phase(&args),
         "ringflags" => ops_ringflags::run(&args),
-        _ => panic!("unknown phase {phase} (poll | ringflags)"),
+        "sqebytes" => ops_sqebytes::run(&args),
+        _ => panic!("unknown phase {phase} (poll | ringflags | sqebytes)"),
     };
     r.write(&args.out);
 }
